@@ -113,7 +113,7 @@ NP_UNARY = {
     "rad2deg": lambda x: x * 180 / sp.pi, "degrees": lambda x: x * 180 / sp.pi,
     "asarray": lambda x: x, "array": lambda x: x, "asanyarray": lambda x: x, "float64": lambda x: x,
     "ravel": lambda x: x, "squeeze": lambda x: x, "atleast_1d": lambda x: x, "real": lambda x: x,
-    "square": lambda x: x ** 2,
+    "square": lambda x: x ** 2, "reciprocal": lambda x: 1 / x, "imag": lambda x: sp.Integer(0),
 }
 NP_BINARY = {
     "divide": lambda a, b: a / b, "true_divide": lambda a, b: a / b, "multiply": lambda a, b: a * b,
@@ -614,7 +614,7 @@ def is_zero(e, assume_trig=()):
 _PRIMES = [2, 3, 5, 7, 11, 13, 17, 19, 23, 29, 31, 37, 41, 43, 47, 53, 59, 61]
 
 
-def sample_nonzero(e, tries=10):
+def sample_nonzero(e, tries=12):
     syms = sorted(e.free_symbols, key=lambda s: s.name)
     funcs = [f for f in e.atoms(sp.Function) if isinstance(f, sp.core.function.AppliedUndef)]
     for t in range(tries):
@@ -624,6 +624,10 @@ def sample_nonzero(e, tries=10):
             sub[s] = sp.Rational(p, q) if t else sp.Rational(p + 1, p)
             if t >= 4:
                 sub[s] = sub[s] ** (1 if (i + t) % 3 else 3) * (7 if (i + t) % 2 else sp.Rational(1, 7))
+            if t == tries - 1:
+                sub[s] = sub[s] * sp.Rational(1, 10 ** 12)      # very small magnitudes (absolute floors / tolerances show up here)
+            elif t == tries - 2:
+                sub[s] = sub[s] * 10 ** 12
             if not s.is_positive and (t + i) % 2 == 1:
                 sub[s] = -sub[s]
         try:
